@@ -1,6 +1,7 @@
 package main
 
 import (
+	"sort"
 	"fmt"
 	"go/constant"
 	"go/token"
@@ -791,6 +792,12 @@ func checkC16(c *Ctx) {
 		}
 	}
 
+	// ---- C16.10 both ends of a session speak the same SCTP dialect: every sctp.Config the package builds sets the same
+	// MaxMessageSize (today: none sets it). An end that may send messages its peer's receive buffers cannot hold turns one
+	// large Write into a dead stream - "a lossless ordered byte stream whatever sizes reader and writer use"
+	r.Rule("C16.10", "every sctp.Config of the package sets the same maximum message size", 2)
+	checkSCTPConfigs(c, "C16.10", "MaxMessageSize")
+
 	r.Rule("C16.6", "client heartbeat period is below the server watchdog interval", 1)
 	// the watchdog is re-armed every interval: between two inspections of the received-heartbeat flag the flag is
 	// cleared, otherwise one heartbeat keeps the connection alive forever
@@ -999,4 +1006,70 @@ func deferReceives(d *ssa.Defer, ch ssa.Value) bool {
 		}
 	})
 	return got
+}
+
+// checkSCTPConfigs: the sctp.Config literals of pkg/dtls agree on a field (C16.10: MaxMessageSize), or all take the
+// library's own logger factory unmodified (C17.4: LoggerFactory).
+func checkSCTPConfigs(c *Ctx, rule, field string) {
+	r := c.R
+	type site struct {
+		f   *ssa.Function
+		pos token.Pos
+		val string
+	}
+	var sites []site
+	for _, f := range c.funcsOfPkgs("pkg/dtls") {
+		if f.Blocks == nil || strings.Contains(r.posStr(f.Pos()), "_test") {
+			continue
+		}
+		cfgs := map[*ssa.Alloc]string{}
+		eachInstr(f, func(in ssa.Instruction) {
+			al, ok := in.(*ssa.Alloc)
+			if ok && strings.HasSuffix(typeShort(al.Type()), "sctp.Config") {
+				cfgs[al] = "(unset)"
+			}
+		})
+		eachInstr(f, func(in ssa.Instruction) {
+			st, ok := in.(*ssa.Store)
+			if !ok {
+				return
+			}
+			fa, ok := st.Addr.(*ssa.FieldAddr)
+			if !ok {
+				return
+			}
+			al, ok := fa.X.(*ssa.Alloc)
+			if !ok {
+				return
+			}
+			if _, isCfg := cfgs[al]; !isCfg || fieldName(fa.X.Type(), fa.Field) != field {
+				return
+			}
+			if cv, isC := constOf(stripConv(st.Val)); isC {
+				cfgs[al] = cv.ExactString()
+			} else {
+				cfgs[al] = pathOf(st.Val)
+			}
+		})
+		for al, v := range cfgs {
+			sites = append(sites, site{f, al.Pos(), v})
+		}
+	}
+	if len(sites) == 0 {
+		r.Unk(rule, "sctp.Config literals in pkg/dtls", token.NoPos, "", "none found")
+		return
+	}
+	sort.Slice(sites, func(i, j int) bool { return sites[i].pos < sites[j].pos })
+	for _, s := range sites {
+		switch field {
+		case "LoggerFactory":
+			okk := s.val == "(unset)" || strings.HasSuffix(s.val, "logging.NewDefaultLoggerFactory()")
+			r.Check(okk, rule, fnName(s.f)+": sctp.Config.LoggerFactory is the library's default factory", s.pos, fnName(s.f), s.val,
+				"the SCTP library is given a logger factory of the station's own making ("+firstN(s.val, 50)+"): at a raised level the library prints the raw error of the underlying connection (write udp a->b: ...) to the process output - the client's address, past every sanitiser of the station")
+		default:
+			okk := s.val == sites[0].val
+			r.Check(okk, rule, fnName(s.f)+": sctp.Config."+field+" = "+firstN(s.val, 30), s.pos, fnName(s.f), "same as every other sctp.Config of the package",
+				"the two ends of a session are configured with different "+field+" ("+firstN(s.val, 30)+" here, "+firstN(sites[0].val, 30)+" in "+fnName(sites[0].f)+"): one end accepts writes the other end's receive path cannot take - the message is reported written, the receiver closes the stream, and everything after it is lost")
+		}
+	}
 }
